@@ -119,9 +119,14 @@ def check(ctx):
             ctext = " & ".join(conds)
             passthrough = sv == ("var", schemavar)
             inactive = any(c in skipflags for c in conds) or any(re.search(r"^(\w+(\.\w+)*) is None$", c) for c in conds)
+            # the skip flag as a two-valued enum instead of a bool (`validation == Validation::Skip`): the path taken under an equality test on a
+            # mode parameter that leaves the schema as it is
+            modes = [p_["pat"].get("name") for p_ in fn.sig.get("params", []) if p_.get("pat") and re.fullmatch(r"[A-Z]\w*", re.sub(r"\s+", "", p_.get("ty") or ""))]
+            if not inactive and passthrough and any(re.fullmatch(r"(%s) (==|matches) [\w:]+" % "|".join(map(re.escape, modes)), c) for c in conds if modes):
+                inactive = True
             if inactive:
                 if passthrough:
-                    r1.ok("%s: schema unchanged when %s" % (fname, [c for c in conds if c in skipflags or c.endswith("is None")][0]))
+                    r1.ok("%s: schema unchanged when %s" % (fname, ([c for c in conds if c in skipflags or c.endswith("is None")] + conds[:1])[0]))
                 else:
                     r1.bad(V(r1.id, "ZodSchemaBuilder::" + fname, "inactive-path-changes-schema:%s" % render(sv), "with %s the schema is still modified: %s" % (ctext, render(sv))))
                 continue
